@@ -24,7 +24,7 @@ TRUSTED = [
 ASSUMPTIONS = ["terms are products of distinct factors (Term.__init__ de-duplicates by expression)"]
 RULE = (
     "random formulas over numeric columns a..e (products of distinct factors, optional numeric literal scalings, "
-    "intercept on/off) x random tuples of differentiation variables incl. repeats and absent names; 30% of the cases continue with in-place edits of the formula (del/pop/insert/append/setitem) and a second differentiation; "
+    "intercept on/off) x random tuples of differentiation variables incl. repeats and absent names x entry point (Formula.differentiate, ModelSpec.differentiate on a fresh spec and on the spec of an already built matrix; the derivative is then materialised through that spec); 30% of the cases continue with in-place edits of the formula (del/pop/insert/append/setitem) and a second differentiation; "
     "non-trivial = formula has an interaction term and wrt is non-empty; distinct by canonical JSON"
 )
 
@@ -53,6 +53,9 @@ def cases(rng, tier):
             formula=formula,
             wrt=wrt,
             efr=rng.random() < 0.5,
+            # entry point: Formula.differentiate, ModelSpec.differentiate on a fresh spec, or on the spec of a
+            # matrix that has already been built (the spec then carries the structure of the ORIGINAL terms)
+            entry=rng.choice(["formula", "formula", "spec", "matspec"]),
             data={v: [rng.randint(-4, 6) for _ in range(4)] for v in VARS},
         )
         if rng.random() < 0.3:
@@ -66,7 +69,7 @@ def cases(rng, tier):
 
 
 def describe(c):
-    return f"terms={c['formula'].count('+') + 1},wrt={len(c['wrt'])}"
+    return f"terms={c['formula'].count('+') + 1},wrt={len(c['wrt'])},entry={c.get('entry', 'formula')}"
 
 
 def nontrivial(c):
@@ -80,9 +83,22 @@ def _terms(f):
 def impl(c):
     from formulaic import Formula
 
+    from formulaic import ModelSpec
+
     f = Formula(c["formula"])
+    entry = c.get("entry", "formula")
+    df = pandas.DataFrame(c["data"])
+    dspec = None
     try:
-        d = f.differentiate(*c["wrt"])
+        if entry == "formula":
+            d = f.differentiate(*c["wrt"])
+        else:
+            if entry == "spec":
+                sp = ModelSpec.from_spec(Formula(c["formula"]), output="numpy", ensure_full_rank=c["efr"])
+            else:
+                sp = Formula(c["formula"]).get_model_matrix(df, output="numpy", ensure_full_rank=c["efr"]).model_spec
+            dspec = sp.differentiate(*c["wrt"])
+            d = dspec.formula
     except Exception as e:
         return dict(terms=_terms(f), error=type(e).__name__)
     out = dict(terms=_terms(f), dterms=_terms(d))
@@ -110,14 +126,11 @@ def impl(c):
         except Exception as e:
             out["dterms2"] = {"error": type(e).__name__}
     # materialise original and derivative (numpy output: equal labels cannot collide)
-    df = pandas.DataFrame(c["data"])
     try:
-        mm = f.get_model_matrix(df, output="numpy", ensure_full_rank=c["efr"])
-        dm = d.get_model_matrix(df, output="numpy", ensure_full_rank=c["efr"])
-        out["dcols"] = [
-            [[float(v) for v in numpy.asarray(dm)[:, j]] for j in idx]
-            for idx in (dm.model_spec.term_indices[t] for t in d)
-        ] if False else None
+        if dspec is not None:
+            dm = dspec.get_model_matrix(df)
+        else:
+            dm = d.get_model_matrix(df, output="numpy", ensure_full_rank=c["efr"])
         # per-term columns through the recorded structure (term order = formula order)
         st = dm.model_spec.structure
         cols, pos = [], 0
